@@ -21,8 +21,13 @@ impl V {
         match self {
             V::Null => Value::Null,
             V::Bool(b) => Value::Boolean(*b),
-            V::Num(s) => Value::Number(NumberBuf::new(s.as_bytes().into()).expect("valid number in scenario")),
-            V::Str(s) => Value::String(s.as_str().into()),
+            // leaf storage varies with the spelling (inline buffer vs heap with spare capacity): how a
+            // leaf is stored must never be observable either
+            V::Num(s) => {
+                let bytes: smallvec::SmallVec<[u8; 16]> = if s.len() % 2 == 0 { smallvec::SmallVec::from_slice(s.as_bytes()) } else { let mut v = Vec::with_capacity(s.len() + 40); v.extend_from_slice(s.as_bytes()); smallvec::SmallVec::from_vec(v) };
+                Value::Number(NumberBuf::new(bytes).expect("valid number in scenario"))
+            }
+            V::Str(s) => if s.chars().count() % 2 == 0 { Value::String(s.as_str().into()) } else { let mut t = std::string::String::with_capacity(s.len() + 40); t.push_str(s); Value::String(t.into()) },
             V::Arr(a) => Value::Array(a.iter().map(V::build).collect()),
             V::Obj(es) => {
                 // nested objects are built by plain pushes (their own histories are not the subject)
@@ -150,6 +155,9 @@ pub enum Op {
     /// `extend` from a source iterator that panics after yielding `after` items (a fault of the
     /// caller-provided iterator); `pairs`: through `Extend<(Key, Value)>` instead of `Extend<Entry>`
     ExtendPanicking { r: usize, es: Vec<(String, V)>, after: usize, pairs: bool },
+    /// `get_or_insert_with` / (`mutable`) `get_mut_or_insert_with` with a default closure that panics:
+    /// nothing may change when the key is absent (the closure is not called when it is present)
+    GetOrInsertPanicking { r: usize, k: String, mutable: bool },
     /// extend register r with a clone of the entries of register s
     ExtendFrom { r: usize, s: usize },
     /// through `iter_mut()`, replace the value of entry `i` (if any)
@@ -170,20 +178,20 @@ impl Op {
         match self {
             Op::Push { .. } => "push", Op::PushEntry { .. } => "push_entry", Op::PushFront { .. } => "push_front", Op::PushEntryFront { .. } => "push_entry_front",
             Op::Insert { .. } => "insert", Op::InsertFront { .. } => "insert_front", Op::Remove { .. } => "remove", Op::RemoveAt { .. } => "remove_at", Op::RemoveUnique { .. } => "remove_unique",
-            Op::Sort { .. } => "sort", Op::FromVec { .. } => "from_vec", Op::FromIterEntries { .. } => "from_iter_entries", Op::FromIterPairs { .. } => "from_iter_pairs", Op::FromParse { .. } => "from_parse", Op::ExtendPanicking { .. } => "extend_panicking",
+            Op::Sort { .. } => "sort", Op::FromVec { .. } => "from_vec", Op::FromIterEntries { .. } => "from_iter_entries", Op::FromIterPairs { .. } => "from_iter_pairs", Op::FromParse { .. } => "from_parse", Op::ExtendPanicking { .. } => "extend_panicking", Op::GetOrInsertPanicking { .. } => "get_or_insert_panicking",
             Op::ExtendEntries { .. } => "extend_entries", Op::ExtendPairs { .. } => "extend_pairs", Op::ExtendFrom { .. } => "extend_from", Op::IterMutSet { .. } => "iter_mut_set",
             Op::GetMutSet { .. } => "get_mut_set", Op::GetUniqueMutSet { .. } => "get_unique_mut_set", Op::GetOrInsertWith { .. } => "get_or_insert_with",
             Op::GetMutOrInsertWith { .. } => "get_mut_or_insert_with", Op::CloneTo { .. } => "clone_to", Op::IntoIterRebuild { .. } => "into_iter_rebuild", Op::Fresh { .. } => "fresh",
         }
     }
-    pub const NAMES: [&'static str; 26] = ["push", "push_entry", "push_front", "push_entry_front", "insert", "insert_front", "remove", "remove_at", "remove_unique", "sort", "from_vec",
+    pub const NAMES: [&'static str; 27] = ["push", "push_entry", "push_front", "push_entry_front", "insert", "insert_front", "remove", "remove_at", "remove_unique", "sort", "from_vec",
         "from_iter_entries", "from_iter_pairs", "extend_entries", "extend_pairs", "extend_from", "iter_mut_set", "get_mut_set", "get_unique_mut_set", "get_or_insert_with",
-        "get_mut_or_insert_with", "clone_to", "into_iter_rebuild", "fresh", "from_parse", "extend_panicking"];
+        "get_mut_or_insert_with", "clone_to", "into_iter_rebuild", "fresh", "from_parse", "extend_panicking", "get_or_insert_panicking"];
     pub fn index(&self) -> usize { Op::NAMES.iter().position(|n| *n == self.name()).unwrap() }
     pub fn reg(&self) -> usize {
         match self {
             Op::Push { r, .. } | Op::PushEntry { r, .. } | Op::PushFront { r, .. } | Op::PushEntryFront { r, .. } | Op::Insert { r, .. } | Op::InsertFront { r, .. } | Op::Remove { r, .. }
-            | Op::RemoveAt { r, .. } | Op::RemoveUnique { r, .. } | Op::Sort { r } | Op::FromVec { r, .. } | Op::FromIterEntries { r, .. } | Op::FromIterPairs { r, .. } | Op::FromParse { r, .. } | Op::ExtendPanicking { r, .. } | Op::ExtendEntries { r, .. }
+            | Op::RemoveAt { r, .. } | Op::RemoveUnique { r, .. } | Op::Sort { r } | Op::FromVec { r, .. } | Op::FromIterEntries { r, .. } | Op::FromIterPairs { r, .. } | Op::FromParse { r, .. } | Op::GetOrInsertPanicking { r, .. } | Op::ExtendPanicking { r, .. } | Op::ExtendEntries { r, .. }
             | Op::ExtendPairs { r, .. } | Op::ExtendFrom { r, .. } | Op::IterMutSet { r, .. } | Op::GetMutSet { r, .. } | Op::GetUniqueMutSet { r, .. } | Op::GetOrInsertWith { r, .. }
             | Op::GetMutOrInsertWith { r, .. } | Op::CloneTo { r, .. } | Op::IntoIterRebuild { r } | Op::Fresh { r } => *r,
         }
@@ -191,7 +199,7 @@ impl Op {
     pub fn key(&self) -> Option<&str> {
         match self {
             Op::Push { k, .. } | Op::PushEntry { k, .. } | Op::PushFront { k, .. } | Op::PushEntryFront { k, .. } | Op::Insert { k, .. } | Op::InsertFront { k, .. } | Op::Remove { k, .. }
-            | Op::RemoveUnique { k, .. } | Op::GetMutSet { k, .. } | Op::GetUniqueMutSet { k, .. } | Op::GetOrInsertWith { k, .. } | Op::GetMutOrInsertWith { k, .. } => Some(k),
+            | Op::RemoveUnique { k, .. } | Op::GetMutSet { k, .. } | Op::GetUniqueMutSet { k, .. } | Op::GetOrInsertWith { k, .. } | Op::GetMutOrInsertWith { k, .. } | Op::GetOrInsertPanicking { k, .. } => Some(k),
             _ => None,
         }
     }
@@ -214,6 +222,7 @@ impl Op {
             Op::RemoveAt { i, .. } | Op::IterMutSet { i, .. } => o.push(("index".into(), J::UInt(*i as u64))),
             Op::GetMutSet { pull, .. } => o.push(("pull".into(), J::UInt(*pull as u64))),
             Op::ExtendFrom { s, .. } => o.push(("src".into(), J::UInt(*s as u64))),
+            Op::GetOrInsertPanicking { mutable, .. } => o.push(("mutable".into(), J::Bool(*mutable))),
             Op::ExtendPanicking { after, pairs, .. } => { o.push(("panic_after".into(), J::UInt(*after as u64))); o.push(("pairs".into(), J::Bool(*pairs))); }
             Op::CloneTo { dst, from, .. } => { o.push(("dst".into(), J::UInt(*dst as u64))); o.push(("clone_from".into(), J::Bool(*from))); }
             Op::GetMutOrInsertWith { set, .. } => o.push(("set".into(), set.as_ref().map(V::to_json).map(|j| J::Arr(vec![j])).unwrap_or(J::Arr(vec![])))),
@@ -235,7 +244,8 @@ impl Op {
             "push_front" => Op::PushFront { r, k: k()?, v: v()? }, "push_entry_front" => Op::PushEntryFront { r, k: k()?, v: v()? },
             "insert" => Op::Insert { r, k: k()?, v: v()?, c: c()? }, "insert_front" => Op::InsertFront { r, k: k()?, v: v()?, c: c()? },
             "remove" => Op::Remove { r, k: k()?, c: c()? }, "remove_at" => Op::RemoveAt { r, i: u("index")? }, "remove_unique" => Op::RemoveUnique { r, k: k()? },
-            "sort" => Op::Sort { r }, "from_vec" => Op::FromVec { r, es: es()? }, "from_iter_entries" => Op::FromIterEntries { r, es: es()? }, "from_iter_pairs" => Op::FromIterPairs { r, es: es()? }, "from_parse" => Op::FromParse { r, es: es()? }, "extend_panicking" => Op::ExtendPanicking { r, es: es()?, after: u("panic_after")?, pairs: j.get("pairs").and_then(J::as_bool).unwrap_or(false) },
+            "sort" => Op::Sort { r }, "from_vec" => Op::FromVec { r, es: es()? }, "from_iter_entries" => Op::FromIterEntries { r, es: es()? }, "from_iter_pairs" => Op::FromIterPairs { r, es: es()? }, "from_parse" => Op::FromParse { r, es: es()? }, "get_or_insert_panicking" => Op::GetOrInsertPanicking { r, k: k()?, mutable: j.get("mutable").and_then(J::as_bool).unwrap_or(false) },
+            "extend_panicking" => Op::ExtendPanicking { r, es: es()?, after: u("panic_after")?, pairs: j.get("pairs").and_then(J::as_bool).unwrap_or(false) },
             "extend_entries" => Op::ExtendEntries { r, es: es()? }, "extend_pairs" => Op::ExtendPairs { r, es: es()? }, "extend_from" => Op::ExtendFrom { r, s: u("src")? },
             "iter_mut_set" => Op::IterMutSet { r, i: u("index")?, v: v()? }, "get_mut_set" => Op::GetMutSet { r, k: k()?, pull: u("pull")?, v: v()? },
             "get_unique_mut_set" => Op::GetUniqueMutSet { r, k: k()?, v: v()? }, "get_or_insert_with" => Op::GetOrInsertWith { r, k: k()?, v: v()? },
@@ -255,7 +265,7 @@ impl Op {
         }
         if let Some(c) = self.cancel() { d.usize(c.pull); d.u8(c.then as u8); }
         if let Some(es) = self.entries() { d.usize(es.len()); for (k, v) in es { d.str(k); v.digest(d); } }
-        match self { Op::RemoveAt { i, .. } | Op::IterMutSet { i, .. } => d.usize(*i), Op::GetMutSet { pull, .. } => d.usize(*pull), Op::ExtendFrom { s, .. } => d.usize(*s), Op::ExtendPanicking { after, pairs, .. } => { d.usize(*after); d.u8(*pairs as u8) } Op::CloneTo { dst, from, .. } => { d.usize(*dst); d.u8(*from as u8) }
+        match self { Op::RemoveAt { i, .. } | Op::IterMutSet { i, .. } => d.usize(*i), Op::GetMutSet { pull, .. } => d.usize(*pull), Op::ExtendFrom { s, .. } => d.usize(*s), Op::ExtendPanicking { after, pairs, .. } => { d.usize(*after); d.u8(*pairs as u8) } Op::GetOrInsertPanicking { mutable, .. } => d.u8(*mutable as u8), Op::CloneTo { dst, from, .. } => { d.usize(*dst); d.u8(*from as u8) }
             Op::GetMutOrInsertWith { set, .. } => if let Some(s) = set { s.digest(d) }, _ => {} }
     }
 }
@@ -448,7 +458,8 @@ pub fn gen_hist(rng: &mut Rng, max_len: usize) -> HistSc {
             22 => Op::IntoIterRebuild { r },
             23 => Op::Fresh { r },
             24 => Op::FromParse { r, es: gen_entries(rng, &uni, 10) },
-            _ => Op::ExtendPanicking { r, es: gen_entries(rng, &uni, 8), after: rng.usize_below(8), pairs: rng.chance(1, 2) },
+            25 => Op::ExtendPanicking { r, es: gen_entries(rng, &uni, 8), after: rng.usize_below(8), pairs: rng.chance(1, 2) },
+            _ => Op::GetOrInsertPanicking { r, k, mutable: rng.chance(1, 2) },
         };
         ops.push(op);
     }
@@ -513,7 +524,7 @@ pub fn hist_shrink_candidates(sc: &HistSc) -> Vec<HistSc> {
         for op in ops.iter_mut() {
             match op {
                 Op::Push { k, .. } | Op::PushEntry { k, .. } | Op::PushFront { k, .. } | Op::PushEntryFront { k, .. } | Op::Insert { k, .. } | Op::InsertFront { k, .. } | Op::Remove { k, .. }
-                | Op::RemoveUnique { k, .. } | Op::GetMutSet { k, .. } | Op::GetUniqueMutSet { k, .. } | Op::GetOrInsertWith { k, .. } | Op::GetMutOrInsertWith { k, .. } => *k = rename(k),
+                | Op::RemoveUnique { k, .. } | Op::GetMutSet { k, .. } | Op::GetUniqueMutSet { k, .. } | Op::GetOrInsertWith { k, .. } | Op::GetMutOrInsertWith { k, .. } | Op::GetOrInsertPanicking { k, .. } => *k = rename(k),
                 Op::FromVec { es, .. } | Op::FromIterEntries { es, .. } | Op::FromIterPairs { es, .. } | Op::FromParse { es, .. } | Op::ExtendPanicking { es, .. } | Op::ExtendEntries { es, .. } | Op::ExtendPairs { es, .. } => for e in es.iter_mut() { e.0 = rename(&e.0) },
                 _ => {}
             }
